@@ -83,6 +83,23 @@ Theorem C02_flush_valid : forall H rs f b, BInv H rs f b ->
 Proof. exact flush_valid. Qed.
 Print Assumptions C02_flush_valid.
 
+(* A flush that fails (a buffered put whose key is already stored or buffered before it, or whose sizes are out of
+   range): exactly the puts queued before the doomed one reach the file, as complete records; the doomed item is
+   dropped, the rest stays buffered, and the listing becomes stored keys + still-buffered keys.  (Used with C04:
+   a writing session that ends with a failing flush leaves the map extended by exactly the flushed prefix.) *)
+Theorem C02_flush_fails_atomically : forall H good fuel rs f h ks u bs r s k v rest,
+  (length good + S (length rest) < fuel)%nat ->
+  f = H ++ blocks rs -> full H rs h -> closed h = false -> md h = MA ->
+  Forall wfkv good -> NoDup (map fst (rs ++ good)) ->
+  (assoc (rs ++ good) k <> None \/ wfb k v = false) ->
+  exists h' e,
+    flush_loop fuel f (mkb h true (good ++ (k, v) :: rest) ks u bs r s) =
+      (H ++ blocks (rs ++ good),
+       mkb h' true rest (set_union (keys h') (map fst rest)) u bs r s, Some e)
+    /\ full H (rs ++ good) h' /\ closed h' = false /\ md h' = MA.
+Proof. exact flush_fails_atomically. Qed.
+Print Assumptions C02_flush_fails_atomically.
+
 (* Non-vacuity: a concrete disciplined history over two handles meets the hypotheses, and runs. *)
 Definition ex_H : bytes := mk_header (repeat 77 16) [1; 2] [9].
 Definition ex_ops : list op :=
